@@ -1,0 +1,10 @@
+//go:build verif
+
+package group
+
+// This file only exists in builds with the "verif" tag: it exports the
+// unexported validators to an external monitoring harness.
+
+func VerifValidGroupName(name string) bool { return validGroupName(name) }
+
+func VerifValidUsername(username string) bool { return validUsername(username) }
